@@ -53,7 +53,7 @@ from rtc.api import clause, PASS, FAIL, TRIVIAL, SKIP
 from rtc import gen
 
 
-BUDGET = (58, 580)
+BUDGET = (75, 700)
 CASE_TIMEOUT = 120
 BOUNDS = ('d in {2, 3, 10, 60, 500, 2100, 3000}, rank 1..3 and 5 (3000: rank <= 2 quick), n in {1, 2, 3, 5, 17, mixed}, 5 families, '
           '11 exponent profiles, totals 2^-30000 .. 2^+30000 (|per-core exponent| <= 80 down / 200 up), pivots {0, 1, d/3, d/2, 2d/3, '
